@@ -760,9 +760,12 @@ PROPS = {
                        "The verdict on a whole answer: the tail of ValidationContext::validate_msg (real text from the point where the groups are validated and the alias chain has been followed; edit form FRAGMENT/tail, the "
                        "head is read from a model of self) with utilities::map_maybe_secure: the verdict is Secure only if the chain of CNAME / DNAME records from QNAME to the final name was Secure (seed C14-5); a name error "
                        "only with a secure SOA whose signer vouches for an NSEC or NSEC3 name-error proof in the sense of the contracts above; NODATA only with a secure SOA and one of the four NODATA proofs; a positive "
-                       "answer only if the answering group is Secure and, when it was expanded from a wildcard, the name itself is shown not to exist.",
+                       "answer only if the answering group is Secure and, when it was expanded from a wildcard, the name itself is shown not to exist. utilities::{get_answer_state, get_soa_state, "
+                       "check_not_exists_for_wildcard} (real text): the answering group is the first one of the class, type and owner asked for; the SOA that vouches for a negative answer is the first SOA group of the class "
+                       "at or above the name; a wildcard expansion is accepted as Secure only with an NSEC proof of non-existence whose closest encloser is the one the signature gives, or a trusted NSEC3 without opt-out that "
+                       "covers the next closer name (predicate wildcard_nx_proved) -- these are the functions the postconditions of validate_msg are stated over.",
         "not_covered": "Soundness of 'secure' beyond the 360 scenarios of the native search (signature chains to a trust anchor, NSEC/NSEC3 proofs), insecure-delegation handling, "
-                       "do_cname_dname, validate_groups and everything before them in validate_msg (message to groups, signature chains: async code over caches and the upstream), get_answer_state / get_soa_state / check_not_exists_for_wildcard (loops over the groups: uninterpreted functions of their arguments here), what other tasks do to the shared hash cache between the await points of the "
+                       "do_cname_dname, validate_groups and everything before them in validate_msg (message to groups, signature chains: async code over caches and the upstream), get_child_of_ce (an uninterpreted function here), what other tasks do to the shared hash cache between the await points of the "
                        "async functions (the cache is modelled as a function: the hash of a name under given parameters), every other panic site of the "
                        "validator (e.g. nsec3_hash(..).unwrap()), loops: async code over caches and crypto, out of reach. That every group of type NSEC "
                        "carries NSEC data (the precondition that makes get_checked_nsec's panic unreachable) is established where groups are built from "
